@@ -13,6 +13,18 @@ class AnalysisError(Exception):
     ANALYSIS-ERROR / exit 2, never as a violation and never as a pass."""
 
 
+class ModelViolation(AnalysisError):
+    """Raised by a table extractor when the construct it is reading is not
+    merely unfamiliar but *definitely* breaks the fact the table stands for
+    (e.g. forced parentheses that are skipped on some path).  The check that
+    called the extractor cannot go on (there is no table), so the driver
+    records the obligation as failed and finishes: exit 1, not 2."""
+
+    def __init__(self, key, where, what):
+        super().__init__(f"{key}: {what}")
+        self.key, self.where, self.what = key, where, what
+
+
 def assert_not_imported():
     for name in list(sys.modules):
         if name == "pymbolic" or name.startswith("pymbolic."):
